@@ -14,7 +14,10 @@ CONST_OPS = [('FULLY_CONNECTED', 'bias'), ('FULLY_CONNECTED', 'nobias'),
              ('BATCH_MATMUL', 'const_adjy'), ('EMBEDDING_LOOKUP', 'w4'),
              ('EMBEDDING_LOOKUP', 'w3'), ('EMBEDDING_LOOKUP', 'v5'),
              ('ADD', 'tc'), ('SUB', 'tc'),
-             ('MUL', 'tc'), ('CONCATENATION', 'tc')]
+             ('MUL', 'tc'), ('CONCATENATION', 'tc'),
+             ('FULLY_CONNECTED', 'nokeepdims'), ('CONV_2D', '2x2valid_relu6'),
+             ('DEPTHWISE_CONV_2D', 'm2'), ('BATCH_MATMUL', 'const_adjx'),
+             ('ADD', 'ts'), ('MUL', 'ts')]
 XSHAPES = ['S4', 'S43', 'R2', 'O13', 'O35']
 ALLMODES = [m for m in md.ALL_MODES if m != 'NQ']
 QUICK_KINDS = ['rand', 'ramp', 'neg', 'const', 'zero', 'outlier', 'tie', 'big']
@@ -24,7 +27,7 @@ def cases(tier, seed):
   kinds = list(irm.WEIGHT_KINDS)
   pools = [seed % 4, (seed + 1) % 4] if tier == 'quick' else [0, 1, 2, 3]
   for t, v in CONST_OPS:
-    ar = dict(irm.VARIANTS[t])[v]
+    ar = irm.arity(t, v)
     for xs in XSHAPES:
       for wk in kinds:
         for pool in (pools if wk in ('rand', 'outlier', 'pos', 'neg') else pools[:1]):
